@@ -7,9 +7,9 @@ call site -> compiled callee: vectorcall with kwnames, tp_call for f(*a, **k), b
 operator.call, type.__call__) and, for a part of them, embedded into the module as compiled call sites.
 Oracle: CPython executing the same `def`: same bound values, or TypeError (type only) in exactly the same cases.
 """
-import json
 import os
 import re
+from concurrent.futures import ThreadPoolExecutor
 
 from vlib import core, creach, cy, diff
 from vlib.gen import sigs
@@ -141,6 +141,13 @@ def gen_functions(ck, nsig, nshape, pyx_share=0.3):
         elif kind == 'inner':
             sg = sigs.gen_sig(rng, allow_star=rng.random() < .2, allow_kwonly=rng.random() < .2,
                               allow_dstar=rng.random() < .2)
+        elif i % 8 == 3:
+            # the most common real-world shapes: 0..2 plain parameters, nothing else (also the METH_NOARGS / METH_O
+            # cells of always_allow_keywords=False)
+            names = rng.sample(sigs.NAMES, rng.choice([0, 1, 1, 1, 2]))
+            sg = sigs.Sig([], [(n, None) for n in names], None, [], None)
+            if names and rng.random() < .25:
+                sg.plain[-1] = (names[-1], '7')
         elif pyx:
             sg = sigs.gen_sig(rng, int_defaults=True)
         else:
@@ -229,13 +236,23 @@ def outcome_class(o):
     return o[1][0] if o[0] == 'ok' else o[1]
 
 
-def classify(f, shp, path, exp, got, cfg):
+def classify(f, shp, path, exp, got, cfg, crash=None):
     """mechanism key: function kind, call path, configuration, star/dstar use, keyword-name kind, intent, outcome"""
-    e, g = outcome_class(exp), outcome_class(got)
-    if e == g and exp[:2] != got[:2]:
-        e, g = 'values', 'other-values'
-    if exp[:2] == got[:2]:
-        e, g = 'same', 'log-differs'
+    if crash:
+        e, g = 'any', crash
+    else:
+        e, g = outcome_class(exp), outcome_class(got)
+        if e == g and exp[:2] != got[:2]:
+            e, g = 'values', 'other-values'
+        if exp[:2] == got[:2]:
+            e, g = 'same', 'log-differs'
+    if path in ('callsite', 'inner') and shp.literal_dup():
+        # compiled call site, keyword repeated between direct keywords / literal ** dict displays
+        return 'bind:callsite-literal-dup-keyword:%s->%s' % (e, g)
+    if shp.alias_dup():
+        # two different keys (plain-str subclass and __eq__-overriding subclass) match one parameter
+        return 'bind:alias-dup-asymmetric-eq:%s:%s->%s' % (
+            'kwdict' if cfg in ('novectorcall', 'nofastcall') else 'kwnames', e, g)
     return 'bind:%s:%s:%s:%s%s:%s:%s:%s->%s' % (cfg, f.kind, path, 's' if shp.has_star() else '-',
                                               'd' if shp.has_dstar() else '-', shp.kwkind_label(), shp.intent, e, g)
 
@@ -258,42 +275,100 @@ GCOV_FUNCS = ['__Pyx_ParseKeywordsTuple', '__Pyx_ParseKeywordDict', '__Pyx_Parse
               '__Pyx_CyFunction_CallMethod']
 
 
+def _cpu():
+    t = os.times()
+    return t.user + t.system + t.children_user + t.children_system
+
+
+def wrapper_bodies(ctext, names):
+    """token -> C text of the Python wrapper(s) and implementation of the function named by the token.
+    (vlib.creach only recognises one-line C function headers; the wrappers' headers span several lines.)"""
+    out = {}
+    segs = ctext.split('/* Python wrapper */')
+    for seg in segs[1:]:
+        head = seg[:600]
+        m = re.search(r'__pyx_pw_\w*?(fz\d+z)\b', head) or re.search(r'__pyx_pw_\w*?(Kz\d+z)\w*', head)
+        if m:
+            tok = m.group(1).replace('Kz', 'fz')
+            out[tok] = out.get(tok, '') + seg
+    return {n: out.get(n, '') for n in names}
+
+
 def main(ck):
     tree = cy.Tree('C24')
-    nsig = ck.pick(300, 1800)
-    nshape = ck.pick(60, 110)
+    stage_cpu = {}
+    t_last = [_cpu()]
+
+    def lap(name):
+        now = _cpu()
+        stage_cpu[name] = round(stage_cpu.get(name, 0) + now - t_last[0], 1)
+        t_last[0] = now
+    nsig = ck.pick(300, 1200)
+    nshape = ck.pick(60, 100)
     fns = gen_functions(ck, nsig, nshape)
     mods = build_modules(fns, per_mod=ck.pick(20, 40))
     # configuration cells: the full matrix on the default build; a subset of the modules on the others
     cfgs = [('default', 1.0)]
     if ck.quick:
-        cfgs += [('novectorcall', 0.25), ('noallowkw', 0.2), ('nobinding', 0.15)]
+        cfgs += [('novectorcall', 0.2), ('noallowkw', 0.14), ('nobinding', 0.14)]
     else:
-        cfgs += [('novectorcall', 0.5), ('nofastcall', 0.15), ('noallowkw', 0.4), ('nobinding', 0.3)]
-    total_n = total_distinct = trivial_n = 0
-    samples = []
-    hist = {}
-    skipped_build = 0
-    nmods_built = 0
-    helpers = {}
-    gcov = {}
-    fn_with_parse = set()
-    doc_expect = 0
+        cfgs += [('novectorcall', 0.5), ('nofastcall', 0.12), ('noallowkw', 0.3), ('nobinding', 0.25)]
+    lap('generate')
+
+    # ------------------------------------------------------------ build every cell
+    # one translation pool for all cells (every interpreted-compiler worker pays several CPU seconds of start-up:
+    # the Plex lexicon is rebuilt in pure Python), then all C builds in one pool
+    jobs, meta = [], []
+    cell_sel = {}
     for cfg, share in cfgs:
         conf = CONFIGS[cfg]
-        sel = mods if share >= 1 else [m for i, m in enumerate(mods) if (i * 0.6180339887) % 1.0 < share] or mods[:1]
-        srcs_py = {m[0]: m[2] for m in sel if m[1] == '.py'}
-        srcs_pyx = {m[0]: m[2] for m in sel if m[1] == '.pyx'}
-        infos = {}
-        cov_mod = sel[0][0]
-        for ext, srcs in (('.py', srcs_py), ('.pyx', srcs_pyx)):
-            if not srcs:
-                continue
-            d, info = tree.build_sources(srcs, subdir='b_' + cfg, ext=ext, directives=conf['directives'],
-                                         cflags=conf['cflags'])
-            infos.update(info)
+        sel = mods if share >= 1 else [m for i, m in enumerate(mods) if ((i + 1) * 0.6180339887) % 1.0 < share] or mods[:1]
+        if cfg != 'default':
+            for ext in ('.py', '.pyx'):       # keep both source kinds in every cell
+                if not any(m[1] == ext for m in sel):
+                    sel = sel + [m for m in mods if m[1] == ext][:1]
+        cell_sel[cfg] = sel
+        d = tree.subdir('b_' + cfg)
+        for name, ext, src, ref, cases in sel:
+            path = os.path.join(d, name + ext)
+            with open(path, 'w', encoding='utf-8') as fh:
+                fh.write(src)
+            jobs.append({'src': path, 'directives': conf['directives']})
+            meta.append((cfg, name))
+    tres, _ = tree.translate(jobs, nworkers=min(core.NCPU, ck.pick(6, 10)), timeout=ck.pick(1800, 3600))
+    lap('translate')
+    infos = {}
+    tobuild = []
+    for (cfg, name), j, r in zip(meta, jobs, tres):
+        infos[cfg, name] = {'src': j['src'], 'c': r.get('c'), 'so': None, 'ok': False, 'stage': 'translate',
+                            'errors': (r.get('exc') or '') + (r.get('errors') or '')}
+        if r['ok']:
+            tobuild.append((cfg, name))
+    cov_mods = {}
+    for cfg in ('default', 'novectorcall'):
+        cov_mods[cfg] = next((n for c, n in tobuild if c == cfg and n.startswith('c24p')), None)
+    items = []
+    for cfg, name in tobuild:
+        kw = {'cflags': list(CONFIGS[cfg]['cflags'])}
+        if cov_mods.get(cfg) == name:
+            kw['cflags'] += ['--coverage', gcovreach.DUMP_C]
+            kw['ldflags'] = ['--coverage']
+        items.append((infos[cfg, name]['c'], kw))
+    for (cfg, name), b in zip(tobuild, tree.cbuild_many(items, timeout=ck.pick(1800, 3600))):
+        inf = infos[cfg, name]
+        inf.update(stage='cc', so=b['so'], ok=b['ok'])
+        if not b['ok']:
+            inf['errors'] = b['err']
+    cells_built = [(cfg, cell_sel[cfg], {m[0]: infos[cfg, m[0]] for m in cell_sel[cfg]}, cov_mods.get(cfg)) for cfg, _ in cfgs]
+    lap('cc')
+
+    # ------------------------------------------------------------ prepare and run the cases of every (cell, module)
+    skipped_build = nmods_built = 0
+    helpers = {}
+    fn_with_parse = set()
+    tasks = []
+    for cfg, sel, infos, cov_mod in cells_built:
         builddir = tree.subdir('b_' + cfg)
-        # dynamic reach: rebuild the first module of the cell with gcov instrumentation (same C text)
         for name, ext, src, ref, cases in sel:
             inf = infos[name]
             if not inf['ok']:
@@ -301,12 +376,8 @@ def main(ck):
                 ck.note('build failure %s/%s at %s: %s' % (cfg, name, inf['stage'], (inf['errors'] or '')[-600:]))
                 continue
             nmods_built += 1
-            if name == cov_mod:
-                if not gcovreach.rebuild(tree, inf, conf['cflags']):
-                    ck.note('coverage build failed for %s/%s' % (cfg, name))
-                    tree.cbuild(inf['c'], so=inf['so'], cflags=conf['cflags'])
             ctext = open(inf['c'], encoding='utf-8', errors='replace').read()
-            bodies = creach.bodies_by_token(ctext, [c[0].name for c in cases])
+            bodies = wrapper_bodies(ctext, [c[0].name for c in cases])
             for h in ANCHORS:
                 if h + '(' in ctext:
                     helpers[h] = helpers.get(h, 0) + 1
@@ -315,69 +386,85 @@ def main(ck):
                 refpath = os.path.join(builddir, name + '_ref.py')
                 with open(refpath, 'w', encoding='utf-8') as fh:
                     fh.write(ref)
-            main_cases, triv_cases = [], []
+            cl = []
             index = {}
+            ntriv = 0
             for f, shp, path, expr, tag, cstext in cases:
                 body = bodies.get(f.name, '')
-                parses = ('__Pyx_ParseKeywords' in body or '__Pyx_RaiseArgtupleInvalid' in body
-                          or '__Pyx_RejectKeywords' in body)
+                parses = f.kind == 'inner' or ('__Pyx_ParseKeywords' in body or '__Pyx_RaiseArgtupleInvalid' in body
+                                               or '__Pyx_RejectKeywords' in body)
                 if parses:
                     fn_with_parse.add((cfg, f.idx))
-                case = {'x': expr, 't': tag}
+                triv = (shp.callsite_fails_early() and path not in ('callsite', 'inner')) or not parses
+                ntriv += triv
                 index[expr] = (f, shp, path, cstext)
-                if (shp.callsite_fails_early() and path not in ('callsite', 'inner')) or not parses:
-                    triv_cases.append(case)
-                else:
-                    main_cases.append(case)
-            preset = {k: k for k in sigs.SETUP_NAMES}
-            for label, cl in (('main', main_cases), ('triv', triv_cases)):
-                if not cl:
-                    continue
-                if label == 'main' and name == cov_mod:
-                    cl = cl + gcovreach.dump_cases()
-                res = diff.run_cases(tree, builddir, name, cl, ref=refpath, compare={'exc_args': False, 'log': True},
-                                     setup=sigs.SETUP + gcovreach.SETUP, preset=preset, tagdir='run_%s_%s_%s' % (cfg, name, label),
-                                     timeout=600)
-                if label == 'main':
-                    total_n += res.n
-                    total_distinct += res.distinct
-                    if cfg == 'default' and len(samples) < 10:
-                        samples.extend(res.samples[:2])
-                else:
-                    trivial_n += res.n
-                for k, v in res.hist.items():
-                    if k.startswith('gcovflush'):
-                        if label == 'main':
-                            total_n -= v
-                        continue
-                    kk = cfg + '/' + k
-                    hist[kk] = hist.get(kk, 0) + v
-                for m in res.mismatches:
-                    f, shp, path, cstext = index[m['case']['x']]
-                    if cfg == 'noallowkw' and f.sig.meth_o_or_noargs() and shp.has_keywords() \
-                            and m['got'][:2] == ['exc', 'TypeError'] and f.kind not in ('init', 'cinit', 'call', 'ccall'):
-                        doc_expect += 1      # documented: METH_O / METH_NOARGS functions reject keywords
-                        continue
-                    key = classify(f, shp, path, m['exp'], m['got'], cfg)
-                    fsrc = HEADER + f.define(ext == '.pyx') + (cstext or '')
-                    w = {'config': cfg, 'cflags': conf['cflags'], 'directives': conf['directives'], 'ext': ext,
-                         'module_source': fsrc, 'case': m['case'], 'expected': m['exp'], 'observed': m['got'],
-                         'setup': sigs.SETUP, 'compare': {'exc_args': False, 'log': True}}
-                    if ext == '.pyx':
-                        w['ref_source'] = HEADER + f.define(False) + (cstext or '')
-                    ck.discrepancy(key, '%s %s via %s [%s]: %s: CPython %s, compiled %s' % (
-                        f.kind, f.sig.params(ext == '.pyx'), path, cfg, m['case']['x'], m['exp'], m['got']), w)
-                for c in res.crashes:
-                    f, shp, path, cstext = index[c['case']['x']]
-                    ck.discrepancy('crash:%s:%s:%s' % (cfg, f.kind, path), 'crash/hang %s on %s' % (c['kind'], c['case']['x']),
-                                   {'config': cfg, 'cflags': conf['cflags'], 'directives': conf['directives'], 'ext': ext,
-                                    'module_source': HEADER + f.define(ext == '.pyx') + (cstext or ''),
-                                    'case': c['case'], 'stderr': c['stderr'], 'setup': sigs.SETUP})
-                for ft in res.fatal:
-                    ck.inconclusive_if(True, 'driver failed for %s/%s: %s' % (cfg, name, str(ft)[-400:]))
+                cl.append({'x': expr, 't': ('triv:' if triv else '') + tag})
             if name == cov_mod:
-                g = gcovreach.counts(inf, set(GCOV_FUNCS))
-                gcov[cfg] = {k: g.get(k, 0) for k in GCOV_FUNCS if k in g}
+                cl = cl + gcovreach.dump_cases()
+            tasks.append((cfg, name, ext, inf, refpath, cl, index, ntriv, builddir, name == cov_mod))
+
+    def run_task(t):
+        cfg, name, ext, inf, refpath, cl, index, ntriv, builddir, is_cov = t
+        return diff.run_cases(tree, builddir, name, cl, ref=refpath, compare={'exc_args': False, 'log': True},
+                              setup=sigs.SETUP + gcovreach.SETUP, preset={k: k for k in sigs.SETUP_NAMES},
+                              tagdir='run_%s_%s' % (cfg, name), timeout=ck.pick(900, 1800), nproc=ck.pick(4, 8))
+
+    with ThreadPoolExecutor(ck.pick(4, 3)) as ex:
+        results = list(ex.map(run_task, tasks))
+    lap('run')
+
+    total_n = total_distinct = trivial_n = doc_expect = 0
+    samples = []
+    hist = {}
+    gcov = {}
+    for t, res in zip(tasks, results):
+        cfg, name, ext, inf, refpath, cl, index, ntriv, builddir, is_cov = t
+        conf = CONFIGS[cfg]
+        nflush = sum(v for k, v in res.hist.items() if k.startswith('gcovflush'))
+        ntriv_seen = sum(v for k, v in res.hist.items() if k.startswith('triv:'))
+        total_n += res.n - nflush - ntriv_seen
+        trivial_n += ntriv_seen
+        # distinct counts (expression, outcome) pairs over the whole run; every trivial case and flush can account
+        # for at most one of them, so this difference never over-counts the non-trivial distinct cases
+        total_distinct += max(0, res.distinct - ntriv_seen - min(1, nflush))
+        if cfg == 'default' and len(samples) < 10:
+            samples.extend([x for x in res.samples if 'gcov' not in x['case']['x']][:2])
+        for k, v in res.hist.items():
+            if k.startswith('gcovflush'):
+                continue
+            kk = cfg + '/' + (k[5:] if k.startswith('triv:') else k)
+            hist[kk] = hist.get(kk, 0) + v
+        for m in res.mismatches:
+            f, shp, path, cstext = index[m['case']['x']]
+            if cfg == 'noallowkw' and f.sig.meth_o_or_noargs() and shp.has_keywords() \
+                    and m['got'][:2] == ['exc', 'TypeError'] and f.kind not in ('init', 'cinit', 'call', 'ccall', 'inner'):
+                doc_expect += 1      # documented: METH_O / METH_NOARGS functions reject keywords
+                continue
+            key = classify(f, shp, path, m['exp'], m['got'], cfg)
+            w = {'config': cfg, 'cflags': conf['cflags'], 'directives': conf['directives'], 'ext': ext,
+                 'module_source': HEADER + f.define(ext == '.pyx') + (cstext or ''), 'case': m['case'],
+                 'expected': m['exp'], 'observed': m['got'], 'setup': sigs.SETUP}
+            if ext == '.pyx':
+                w['ref_source'] = HEADER + f.define(False) + (cstext or '')
+            ck.discrepancy(key, '%s(%s) via %s [%s]: %s: CPython %s, compiled %s' % (
+                f.kind, f.sig.params(ext == '.pyx'), path, cfg, m['case']['x'], m['exp'], m['got']), w)
+        for c in res.crashes:
+            if 'gcov' in c['case']['x']:
+                continue
+            f, shp, path, cstext = index[c['case']['x']]
+            w = {'config': cfg, 'cflags': conf['cflags'], 'directives': conf['directives'], 'ext': ext,
+                 'module_source': HEADER + f.define(ext == '.pyx') + (cstext or ''),
+                 'case': c['case'], 'stderr': c['stderr'], 'setup': sigs.SETUP}
+            if ext == '.pyx':
+                w['ref_source'] = HEADER + f.define(False) + (cstext or '')
+            ck.discrepancy(classify(f, shp, path, None, None, cfg, crash=c['kind'].split()[0]),
+                           'crash/hang %s on %s [%s]: %s' % (c['kind'], c['case']['x'], cfg, c['stderr'][-300:]), w)
+        for ft in res.fatal:
+            ck.inconclusive_if(True, 'driver failed for %s/%s: %s' % (cfg, name, str(ft)[-400:]))
+        if is_cov:
+            g = gcovreach.counts(inf, set(GCOV_FUNCS))
+            gcov[cfg] = {k: g.get(k, 0) for k in GCOV_FUNCS if k in g}
+    lap('judge')
     # ---------------------------------------------------------------- reach
     cells = {}          # kwkind x path (default config)
     kinds = {}
@@ -394,13 +481,15 @@ def main(ck):
         cells['%s x %s' % (kwk, path)] = cells.get('%s x %s' % (kwk, path), 0) + v
         kinds['%s/%s' % (kind, path)] = kinds.get('%s/%s' % (kind, path), 0) + v
         intents[intent] = intents.get(intent, 0) + v
-    need_kw = ['interned', 'runtime', 'S', 'SEq', 'SNe', 'direct']
+    need_kw = ['interned', 'runtime', 'S', 'SEq', 'direct']
     need_path = ['direct', 'bound', 'callsite', 'partial', 'opcall', 'typecall', 'objcall']
     missing = ['%s x %s' % (a, b) for a in need_kw for b in need_path if not cells.get('%s x %s' % (a, b))]
     ck.inconclusive_if(bool(missing), 'keyword-name kind x call path cells not observed: %s' % missing[:8])
     ck.inconclusive_if(not helpers.get('__Pyx_ParseKeywords'), '__Pyx_ParseKeywords absent from every generated C file')
-    ck.inconclusive_if(skipped_build > max(0, 0.2 * (skipped_build + nmods_built)) or (skipped_build and nmods_built == 0),
+    ck.inconclusive_if(skipped_build > 0.2 * (skipped_build + nmods_built) or nmods_built == 0,
                        '%d of %d module builds failed' % (skipped_build, skipped_build + nmods_built))
+    for cfg, share in cfgs:
+        ck.inconclusive_if(not cfg_counts.get(cfg), 'configuration cell %s observed no case' % cfg)
     ck.cov['skipped_build_failure'] = skipped_build
     for cfg, need in (('default', ['__Pyx_ParseKeywordsTuple', '__Pyx_MatchKeywordArg_str', '__Pyx_MatchKeywordArg_nostr']),
                       ('novectorcall', ['__Pyx_ParseKeywordDict', '__Pyx_ParseKeywordDictToDict'])):
@@ -415,9 +504,10 @@ def main(ck):
         'names) x call shapes (positional/keyword mixes, several *iterables and **mappings of many kinds, duplicate, '
         'unknown, missing, surplus, positional-only by keyword, non-str and str-subclass keys) x call paths; every call is '
         'evaluated on the compiled module and on CPython executing the same definitions. distinct = distinct (call '
-        'expression, CPython outcome); a case is non-trivial when the generated C wrapper of the target function '
-        'contains argument unpacking code (__Pyx_ParseKeywords / __Pyx_RaiseArgtupleInvalid / __Pyx_RejectKeywords) '
-        'and the call is not already rejected by a CPython call site before it reaches the callee',
+        'expression, CPython outcome) pairs minus one per trivial case (a lower bound); a case is non-trivial when the '
+        'generated C wrapper of the target function contains argument unpacking code (__Pyx_ParseKeywords / '
+        '__Pyx_RaiseArgtupleInvalid / __Pyx_RejectKeywords) and the call is not already rejected by a CPython call site '
+        'before it reaches the callee',
         samples,
         extra={'signatures': len(fns), 'signature_kinds': _count(f.kind for f in fns),
                'signature_shape_classes': len({f.sig.shape_class() for f in fns}),
@@ -426,11 +516,13 @@ def main(ck):
                'cells_kwname_kind_x_call_path': dict(sorted(cells.items())), 'function_kind_x_call_path': dict(sorted(kinds.items())),
                'intent_hist': intents, 'outcome_hist': dict(sorted(outcomes.items())),
                'anchor_helpers_in_c (modules)': helpers, 'gcov_execution_counts': gcov,
-               'documented_always_allow_keywords_rejections': doc_expect},
+               'documented_always_allow_keywords_rejections': doc_expect, 'cpu_seconds_by_stage': stage_cpu},
         assumptions=['CPython 3.12.1 executing the identical definitions is the reference; TypeError compared by type only',
                      'always_allow_keywords=False: functions with zero arguments or one argument without default '
                      '(METH_NOARGS/METH_O) are expected to reject keyword arguments with TypeError, as documented',
-                     'cpdef call sites inside the module are kept valid (the compiler checks them at compile time)'])
+                     'cpdef call sites inside the module are kept valid (the compiler checks them at compile time)',
+                     'keyword keys with a non-symmetric __eq__ are generated only as the S/SEq pair (known finding); '
+                     'calls never combine a failing mapping with a duplicate key (which fault wins is not part of the statement)'])
 
 
 def _count(it):
@@ -441,7 +533,6 @@ def _count(it):
 
 
 def replay(ck, data):
-    from vlib import replay as rp
     w = data.get('witness', data)
     tree = cy.Tree('replay')
     ext = w.get('ext', '.py')
